@@ -204,7 +204,7 @@ func (x *Exec) evalArgs(call *ast.CallExpr, sig *types.Signature, st *State) []T
 				n++
 			}
 			arr = x.name(st, "varargs", arr)
-			args = append(args, x.mkSlice(elem, arr, intLit(int64(n)), Term{fmt.Sprint(n > 0), SBool}))
+			args = append(args, x.mkSlice(elem, arr, intLit(int64(n)), Term{fmt.Sprint(n > 0), SBool}, intLit(0)))
 			break
 		}
 		if i >= len(call.Args) {
@@ -432,7 +432,7 @@ func (x *Exec) evalBuiltin(call *ast.CallExpr, name string, st *State) []Term {
 			na := x.ctx.Fresh("appended", arr.Sort)
 			ol := x.sliceLen(o)
 			st.define(Term{fmt.Sprintf("(forall ((k Int)) (! (= (select %s k) (ite (< k %s) (select %s k) (select %s (- k %s)))) :pattern ((select %s k))))", na.S, ln.S, arr.S, x.sliceElemsOf(o).S, ln.S, na.S), SBool})
-			return []Term{x.mkSlice(elem, na, mk(SInt, "+", ln, ol), or(x.sliceNonNil(s), mk(SBool, ">", ol, intLit(0))))}
+			return []Term{x.mkSlice(elem, na, mk(SInt, "+", ln, ol), or(x.sliceNonNil(s), mk(SBool, ">", ol, intLit(0))), x.appendArr(st, s, mk(SBool, ">", ol, intLit(0))))}
 		}
 		n := 0
 		for _, a := range call.Args[1:] {
@@ -444,7 +444,7 @@ func (x *Exec) evalBuiltin(call *ast.CallExpr, name string, st *State) []Term {
 		if n > 0 {
 			nn = tTrue
 		}
-		return []Term{x.mkSlice(elem, arr, mk(SInt, "+", ln, intLit(int64(n))), nn)}
+		return []Term{x.mkSlice(elem, arr, mk(SInt, "+", ln, intLit(int64(n))), nn, x.appendArr(st, s, Term{fmt.Sprint(n > 0), SBool}))}
 	case "make":
 		t := x.typeOf(call.Args[0])
 		switch u := t.Underlying().(type) {
@@ -457,7 +457,7 @@ func (x *Exec) evalBuiltin(call *ast.CallExpr, name string, st *State) []Term {
 			n := x.eval(call.Args[1], st)
 			x.safety(st, "make-len", mk(SBool, ">=", n, intLit(0)), "make with negative length", call.Pos())
 			elem := x.sortOf(u.Elem())
-			return []Term{x.mkSlice(elem, x.constArray(arraySort(SInt, elem), x.zero(u.Elem())), n, tTrue)}
+			return []Term{x.mkSlice(elem, x.constArray(arraySort(SInt, elem), x.zero(u.Elem())), n, tTrue, x.allocRef(st, "array"))}
 		}
 		panic(unsupported("make of " + t.String()))
 	case "new":
@@ -507,6 +507,7 @@ func (x *Exec) endPanic(st *State, kind, desc string, pos token.Pos) {
 	if x.contract != nil {
 		for _, c := range x.contract.PanicsIf {
 			env := x.funcEnv(st)
+			env.locals = true
 			allowed = or(allowed, env.evalBool(c.Expr))
 		}
 	}
@@ -582,7 +583,11 @@ func (x *Exec) callFuncValue(call *ast.CallExpr, st *State) []Term {
 		return x.inline(call, fi, nil, nil, args, st)
 	}
 	f := x.eval(call.Fun, st)
-	x.safety(st, "nil-func", not(eq(f, intLit(0))), "call of possibly nil function value "+x.exprString(call.Fun), call.Pos())
+	if x.contract != nil && x.contract.Safety["type-assert-may-panic"] {
+		st.assume(not(eq(f, intLit(0)))) // (a nil function configured by the caller: accepted like a value of the wrong type)
+	} else {
+		x.safety(st, "nil-func", not(eq(f, intLit(0))), "call of possibly nil function value "+x.exprString(call.Fun), call.Pos())
+	}
 	args := x.evalArgs(call, sig, st)
 	return x.applyFn(st, f, sig, args, call.Pos())
 }
@@ -612,6 +617,13 @@ func (x *Exec) applyFn(st *State, f Term, sig *types.Signature, args []Term, pos
 			k := fmt.Sprintf("lastres:%d", i)
 			st.ghost[k] = r
 			x.applyTypes[k] = sig.Results().At(i).Type()
+			// the set of values returned by calls through function values (produced(v) in contracts)
+			pk := "produced:" + string(r.Sort)
+			set, ok := st.ghost[pk]
+			if !ok {
+				set = x.constArray(arraySort(r.Sort, SBool), tFalse)
+			}
+			st.ghost[pk] = store(set, r, tTrue)
 		}
 	}()
 	for i := 0; i < sig.Results().Len(); i++ {
@@ -623,7 +635,14 @@ func (x *Exec) applyFn(st *State, f Term, sig *types.Signature, args []Term, pos
 	}
 	// an unknown function may do anything to the heap it can reach
 	if x.contract == nil || !x.contract.Safety["callbacks-pure"] {
-		x.havocAll(st)
+		if x.contract != nil && x.contract.Safety["callbacks-exempt"] {
+			// what the user's function does is not a write of the function under contract
+			x.inFrameEval = true
+			x.havocAll(st)
+			x.inFrameEval = false
+		} else {
+			x.havocAll(st)
+		}
 	}
 	return out
 }
@@ -1020,4 +1039,17 @@ func (x *Exec) applySites(st *State, f Term, sig *types.Signature, args []Term, 
 		o.ClauseText = s.Text
 		x.siteCount[s.Site]++
 	}
+}
+
+// appendArr: the backing array of append(s, ...). Appending nothing returns s itself; otherwise the
+// elements go into s's array when its capacity suffices (not modelled: an unknown boolean) and into a
+// newly allocated one when it does not, which is always the case for a slice without an array.
+func (x *Exec) appendArr(st *State, s Term, grows Term) Term {
+	old := x.sliceArr(s)
+	if grows.S == "false" {
+		return old
+	}
+	fresh := x.allocRef(st, "array")
+	roomy := x.ctx.Fresh("roomy", SBool)
+	return ite(grows, ite(and(roomy, not(eq(old, intLit(0)))), old, fresh), old)
 }
